@@ -148,6 +148,7 @@ def run(ctx):
     cmdcalc.triggered_by_ids(ctx, r9)
     from mstatic.rules import shared as _sh
     _sh.inbound_before_publish(ctx, r9)
+    _sh.requires_read_with_defaults(ctx, r9)
 
 
 def _run(ctx):
